@@ -35,14 +35,15 @@ type dsEvent struct {
 type recDS struct {
 	inner ds.Datastore
 
-	mu         sync.Mutex
-	nMut       int
-	nQuery     int
-	failAt     int // mutation index to fail, -1 = none
-	failMode   int
-	failQuery  int // query index to fail, -1 = none
-	events     []dsEvent
-	onMutation func(k int, img image) // called right after mutation k was applied (outside r.mu)
+	mu           sync.Mutex
+	nMut         int
+	nQuery       int
+	failAt       int // mutation index to fail, -1 = none
+	failMode     int
+	failQuery    int  // query index to fail, -1 = none
+	failQueryMid bool // false: Query itself returns the error; true: the error arrives among the results
+	events       []dsEvent
+	onMutation   func(k int, img image) // called right after mutation k was applied (outside r.mu)
 }
 
 func newRecDS() *recDS {
@@ -118,10 +119,34 @@ func (r *recDS) Query(ctx context.Context, q dsq.Query) (dsq.Results, error) {
 	r.nQuery++
 	fail := j == r.failQuery
 	r.mu.Unlock()
-	if fail {
+	if fail && !r.failQueryMid {
 		return nil, errInjected
 	}
-	return r.inner.Query(ctx, q)
+	res, err := r.inner.Query(ctx, q)
+	if err != nil || !fail {
+		return res, err
+	}
+	// the query starts fine and breaks while its results are read: half of the entries, then an error
+	entries, err := res.Rest()
+	if err != nil {
+		return nil, err
+	}
+	return dsq.ResultsWithContext(q, func(ctx context.Context, out chan<- dsq.Result) {
+		for i, e := range entries {
+			if i >= len(entries)/2 {
+				break
+			}
+			select {
+			case out <- dsq.Result{Entry: e}:
+			case <-ctx.Done():
+				return
+			}
+		}
+		select {
+		case out <- dsq.Result{Error: errInjected}:
+		case <-ctx.Done():
+		}
+	}), nil
 }
 
 func (r *recDS) Sync(ctx context.Context, prefix ds.Key) error { return r.inner.Sync(ctx, prefix) }
@@ -137,17 +162,4 @@ func (r *recDS) eventsCopy() []dsEvent {
 	r.mu.Lock()
 	defer r.mu.Unlock()
 	return append([]dsEvent(nil), r.events...)
-}
-
-func sameImage(a, b image) bool {
-	if len(a) != len(b) {
-		return false
-	}
-	for k, v := range a {
-		w, ok := b[k]
-		if !ok || string(v) != string(w) {
-			return false
-		}
-	}
-	return true
 }
